@@ -541,3 +541,29 @@ def run_worker(module, function, cases, hashseed, keep_state=False, timeout=1800
     if p.returncode != 0:
         raise HarnessError("worker %s.%s failed (hash seed %s): %s" % (module, function, hashseed, p.stderr[-2000:]))
     return json.loads(p.stdout)["results"]
+
+
+def greedy_minimize(finding, check, candidates, budget=60):
+    """Harness-side minimisation for checks that run without Hypothesis's shrinker (file-system and
+    subprocess based ones): repeatedly try the smaller cases produced by candidates(case) and keep
+    one whenever it still fails with the same key.  Bounded by `budget` check evaluations."""
+    best = finding
+    spent = 0
+    progress = True
+    while progress and spent < budget:
+        progress = False
+        for cand in candidates(best.case):
+            if spent >= budget:
+                break
+            spent += 1
+            try:
+                reset_globals()
+                f = check(cand, Ev())
+            except Exception:
+                continue
+            if f is not None and f.key == best.key:
+                f.check = best.check
+                best = f
+                progress = True
+                break
+    return best
